@@ -43,19 +43,26 @@ TRUSTED = [
 ASSUMPTIONS = ["deterministic succeeding body, rerun=False for C12_recover", "the resubmission is the only live "
                "process inside the protocol (others dead or outside their with block)", "single cache location"]
 RULE = ("crash points = (checkpoint label, occurrence) on the execution path of a succeeding python / shell task, "
+        "of a two-node workflow's own job (debug worker: Job.run; cf worker: Job.run_async) and of its first node job "
+        "(debug: kills the submitter; cf: kills the pool process), "
         "killed with os._exit(137) there (truncation to 0 / 1 / middle / size-1 bytes inside open result and job "
         "files), optionally a second kill during the recovery, then a resubmission in a fresh interpreter under a "
         "wall-clock limit; distinct = distinct (task kind, crash points); non-trivial = the kill happened while the "
         "lock marker was held (the resubmission has to break a dead owner's marker)")
 
 EXTRA = """
-Definition c12_case := (trace_case * nat * nat)%type.
-Definition tie_accepts (c : c12_case) : bool := accepts (fst (fst c)).
-Definition tie_final (c : c12_case) : bool := final_matches (fst (fst c)).
+(* the trace, body executions before the resubmission, the resubmitting process, and for a workflow the largest
+   number of executions of any of its node bodies (before / after are then counted per node) *)
+Definition c12_case := (trace_case * nat * nat * option nat)%type.
+Definition tie_accepts (c : c12_case) : bool := accepts (fst (fst (fst c))).
+Definition tie_final (c : c12_case) : bool := final_matches (fst (fst (fst c))).
+Definition node_accepts (c : trace_case) : bool := accepts c.
+Definition set_runs (g : gobs) (k : nat) : gobs :=
+  let '(a, b, c, d, e, f, r, i) := g in (a, b, c, d, e, f, k, i).
 Definition spec_ok (c : c12_case) : bool :=
-  let '(pre, bv, tr, go, pos, before, who) := c in
+  let '(pre, bv, tr, go, pos, before, who, nodes) := c in
   match find (fun po => Nat.eqb (pobs_pid po) who) pos with
-  | Some po => c12_specb bv before go po
+  | Some po => c12_specb bv before (match nodes with Some k => set_runs go k | None => go end) po
   | None => false
   end.
 """
@@ -105,6 +112,35 @@ def gen_scenarios(ctx, corpus):
                 out.append(dict(name="c12-%d" % k, pre=False, task=dict(task=kind, x=rng.randrange(1, 40)),
                                 stages=stages, timeout=120, crash=[label, nth, tr]))
                 k += 1
+    return out
+
+
+def wf_scenarios(ctx):
+    """Workflow submissions (two chained node jobs with their own locks), debug worker (Job.run, node jobs in the
+    same process) and cf worker (Job.run_async + PydraFileLock, node jobs in pool processes): kill at a label of
+    the workflow's own job (key workflow-) or inside its first node job (key python-), then resubmit the
+    workflow in a fresh interpreter."""
+    rng = ctx.rng
+    outer = [p for p in PATH if p[0] not in ("job.pre_run_done",)]
+    small = ctx.tier == "quick" and ctx.widen == 1
+    plan = []
+    for worker in ("debug", "cf"):
+        n_outer, n_node = (1, 1) if small else ((8, 8) if worker == "debug" else (4, 3))
+        if small and worker == "cf":
+            n_outer, n_node = (1, 0) if rng.random() < 0.5 else (0, 1)
+        cand = [p for p in outer if not (worker == "cf" and p[0] == "job.cwd_changed")]
+        for label, nth in rng.sample(cand, n_outer):
+            plan.append((worker, "workflow-", label, nth))
+        for label, nth in rng.sample([p for p in PATH if p[0] != "job.pre_run_done"], n_node):
+            plan.append((worker, "python-", label, nth))
+    out = []
+    for k, (worker, keyp, label, nth) in enumerate(plan):
+        rule = dict(crash_rule(label, nth), key=keyp)
+        out.append(dict(name="c12-wf-%s-%d" % (worker, k), pre=False,
+                        task=dict(task="workflow", x=rng.randrange(1, 40), worker=worker),
+                        stages=[dict(children=[dict(subs=[{}], rules=[rule])], gate=None),
+                                dict(children=[dict(subs=[{}])], gate=None)],
+                        timeout=240, crash=[label, nth, None], crash_in=keyp + "@" + worker))
     return out
 
 
@@ -160,8 +196,7 @@ def truncation_sweep(ctx, files):
 
 
 def run(ctx):
-    scs = gen_scenarios(ctx, ctx.corpus())
-    scs[0] = dict(scs[0])
+    scs = gen_scenarios(ctx, ctx.corpus()) + wf_scenarios(ctx)
     clean = dict(name="c12-clean", pre=False, task=dict(task="python", x=5),
                  stages=[dict(children=[dict(subs=[{}])], gate=None)], timeout=120, collect_files=True)
     failing = dict(name="c12-failing", pre=False, task=dict(task="python", x=5, fail=True),
@@ -182,14 +217,27 @@ def run(ctx):
                                     note="a strict prefix of a real pickle is not rejected the way load_result expects "
                                          "(codec_ok hypothesis of C12_truncation)", kind="spec"))
     cases, seen = [], set()
-    dist = {"crash_labels": {}, "truncations": 0, "double_crash": 0, "shell": 0, "hangs": 0,
+    node_cases, node_of = [], []
+    dist = {"workflow_kill_sites": {}, "crash_labels": {}, "truncations": 0, "double_crash": 0, "shell": 0, "hangs": 0,
             "resubmission_reexecuted": 0, "resubmission_hit": 0}
     nontrivial = 0
     for sc, res in zip(scs, results):
         bv = procs.expected_value(sc["task"])
         who = res["children"][-1]["idx"]
         before = res["runs_stage"][-2] if len(res["runs_stage"]) >= 2 else 0
-        cases.append("(%s, %d, %d)" % (procs.case_literal(sc, res, bv), before, who))
+        nodes = "None"
+        if sc["task"]["task"] == "workflow":
+            x = sc["task"].get("x", 3)
+            keys = [str(x), str(2 * x + 1)]
+            prev = res["runs_stage_by_x"][-2] if len(res["runs_stage_by_x"]) >= 2 else {}
+            before = max([prev.get(kx, 0) for kx in keys])
+            nodes = "(Some %d)" % max([res["runs_by_x"].get(kx, 0) - prev.get(kx, 0) for kx in keys] + [0])
+            before = 0            # c12_specb: executions of every node body during the resubmission <= 1
+            dist["workflow_kill_sites"][sc.get("crash_in", "?")] = dist["workflow_kill_sites"].get(sc.get("crash_in", "?"), 0) + 1
+        for key, nev in res["node_events"].items():
+            node_cases.append("(false, 1, %s, (false, false, false, 0, 0, 0, 0, 0), [])" % procs.coq_events(nev))
+            node_of.append((len(cases), key))
+        cases.append("(%s, %d, %d, %s)" % (procs.case_literal(sc, res, bv), before, who, nodes))
         label, nth, trunc = sc.get("crash", [None, None, None])
         dist["crash_labels"][str(label)] = dist["crash_labels"].get(str(label), 0) + 1
         dist["truncations"] += trunc is not None
@@ -212,6 +260,17 @@ def run(ctx):
     chk = coqio.run_cases(ctx.scratch, "c12", IMPORTS, "c12_case", cases,
                           {"accepts": "tie_accepts", "final": "tie_final", "spec": "spec_ok"}, extra=EXTRA, shard=25)
     hung = {i for i, r in enumerate(results) if r["children"][-1]["rc"] is None}
+    if node_cases:
+        nchk = coqio.run_cases(ctx.scratch, "c12n", IMPORTS, "trace_case", node_cases, {"accepts": "node_accepts"},
+                               extra=EXTRA, shard=40)
+        for j in nchk["accepts"]:
+            i, key = node_of[j]
+            if i in hung:
+                continue
+            out.failures.append(Failure(case={"scenario": scs[i], "node_job": key}, observed=_obs(results[i]),
+                                        expected={"node job trace (model events)": node_cases[j][:3000]},
+                                        note="trace of a workflow's node job not accepted by the model", kind="tie"))
+        out.extra["node_job_traces_validated"] = len(node_cases) - len(nchk["accepts"])
     for i in chk["spec"]:
         if i in hung:
             continue
@@ -240,7 +299,8 @@ def run(ctx):
 
 
 def _obs(res):
-    return {"body_executions_per_stage": res["runs_stage"], "cache": res["cache"], "hang": res["hang"],
+    return {"body_executions_per_stage": res["runs_stage"], "executions_by_body_input_per_stage": res.get("runs_stage_by_x"),
+            "cache": res["cache"], "hang": res["hang"],
             "children": [{"idx": c["idx"], "rc": c["rc"], "report": c["report"], "tail": c["tail"]} for c in res["children"]],
             "events": ["%d:%s" % e for e in res["events"]]}
 
@@ -248,7 +308,7 @@ def _obs(res):
 def _model_view(ctx, case, name):
     try:
         v = coqio.eval_terms(ctx.scratch, name, IMPORTS, [
-            "let '(pre, bv, tr, go, pos, before, who) := %s in (first_reject bv (init bv pre) tr 0, List.length tr, "
+            "let '(pre, bv, tr, go, pos, before, who, nodes) := %s in (first_reject bv (init bv pre) tr 0, List.length tr, "
             "match accept_run bv (init bv pre) tr with Some s => Some (observe_g s (map pobs_pid pos), map (fun po => observe_p s (pobs_pid po)) pos) | None => None end)" % case])
         return {"first_rejected_event_index, trace_length, model_final_observation": v[0]}
     except Exception as e:  # pragma: no cover
@@ -265,7 +325,14 @@ def replay(ctx, payload):
     bv = procs.expected_value(sc["task"])
     who = res["children"][-1]["idx"]
     before = res["runs_stage"][-2] if len(res["runs_stage"]) >= 2 else 0
-    lit = "(%s, %d, %d)" % (procs.case_literal(sc, res, bv), before, who)
+    nodes = "None"
+    if sc["task"]["task"] == "workflow":
+        x = sc["task"].get("x", 3)
+        keys = [str(x), str(2 * x + 1)]
+        prev = res["runs_stage_by_x"][-2] if len(res["runs_stage_by_x"]) >= 2 else {}
+        nodes = "(Some %d)" % max([res["runs_by_x"].get(kx, 0) - prev.get(kx, 0) for kx in keys] + [0])
+        before = 0
+    lit = "(%s, %d, %d, %s)" % (procs.case_literal(sc, res, bv), before, who, nodes)
     print("implementation:", json.dumps(_obs(res), indent=1, default=repr))
     vals = coqio.eval_terms(ctx.scratch, "replay", IMPORTS, ["tie_accepts %s" % lit, "tie_final %s" % lit, "spec_ok %s" % lit],
                             extra=EXTRA)
